@@ -142,33 +142,44 @@ Definition last_change_reloaded (l : list ev) : bool :=
     | x :: r => if is_reload x then go r true else if is_change x then go r false else go r seen
     end in go l false.
 
-Definition sync_verdict (rd bt ch p brk : bool) (t : task) (o : sobs) : Z :=
+(* 7: outside any window (ready, no batch before or after) the sync changed a file and returned
+      with neither a Reload call after the last change nor (Plus, endpointslice task) a fully
+      successful API push *)
+Definition sync_verdict (pl : bool) (rd bt ch p brk : bool) (t : task) (o : sobs) : Z :=
   let '(l, en, rd', bt', rep) := o in
   let held_after := negb rd' || bt' in
   let changed := ch || existsb is_change l in
   if held_after && negb brk && existsb (fun x => is_reload x || is_api x) l then 1
   else if existsb is_failed_reload l && negb rep then
-         (if existsb (fun x => match x with EWrite FMain _ _ => true | _ => false end) l
-          then (if t_all_reports t then 5 else 0)      (* updateAllConfigs ran: reported unless there is nothing to report on *)
-          else if bt && negb bt' then 5
-          else if is_endp_task (t_kind t) then 6
-          else if t_reports t then 5 else 0)
+         (* whose reload failed: the handler's (before updateAllConfigs rewrites the main config) or updateAllConfigs' own *)
+         (let is_main := fun x => match x with EWrite FMain _ _ => true | _ => false end in
+          let fix split_main (l : list ev) (acc : bool) : bool * bool :=   (* (failed before main, main seen) *)
+            match l with
+            | [] => (acc, false)
+            | x :: r => if is_main x then (acc, true) else split_main r (acc || is_failed_reload x)
+            end in
+          let '(fpre, has_main) := split_main l false in
+          let by_task := if is_endp_task (t_kind t) then 6 else if t_reports t then 5 else 0 in
+          if fpre then (if has_main then by_task else if bt && negb bt' then 5 else by_task)
+          else (if t_all_reports t then 5 else 0))
   else if bt && negb bt' && changed && negb (last_change_reloaded l) then 2
+  else if rd && negb bt && negb bt' && existsb is_change l && negb (last_change_reloaded l)
+          && negb (pl && is_endp_task (t_kind t) && forallb api_ok l && existsb is_api l) then 7
   else if bt && negb bt' && negb (changed || p) && existsb is_reload l then
          (if existsb (fun x => match x with EWrite FMain _ _ => true | _ => false end) l then 4 else 3)
   else 0.
 
 (* brk: a reload already happened inside the current held-back window (everything after it in
    the same window is a consequence, reported once) *)
-Fixpoint sverdicts (rd bt ch p brk : bool) (ts : list task) (obs : list sobs) : list Z :=
+Fixpoint sverdicts (pl : bool) (rd bt ch p brk : bool) (ts : list task) (obs : list sobs) : list Z :=
   match ts, obs with
   | t :: ts', o :: obs' =>
       let '(l, en, rd', bt', rep) := o in
-      let v := sync_verdict rd bt ch p brk t o in
+      let v := sync_verdict pl rd bt ch p brk t o in
       let ch' := if bt' then (if bt then ch else false) || existsb is_change l else false in
       let held_after := negb rd' || bt' in
       let brk' := held_after && (brk || (v =? 1)) in
-      v :: sverdicts rd' bt' ch' (pend_scan p l) brk' ts' obs'
+      v :: sverdicts pl rd' bt' ch' (pend_scan p l) brk' ts' obs'
   | _, _ => []
   end.
 
@@ -185,7 +196,7 @@ Definition scover (t : list ev) (xs : list sout) (c : ctl) : Z :=
 Definition ctl_case (id : Z) (pl : bool) (ts : list task) (rfail afail : list nat) (obs : list sobs) : list Z :=
   let e := {| plus := pl; ro := fails_at rfail; ao := fails_at afail |} in
   let ag := sagree_from e ctl_init ts obs 0 in
-  let vs := sverdicts false false false false false ts obs in
+  let vs := sverdicts pl false false false false false ts obs in
   let '(c, xs) := run_sync e ctl_init ts in
   let t := strace xs in
   [id; b2z (ag =? -1); b2z (forallb (Z.eqb 0) vs); b2z (existsb is_reload t); scover t xs c; ag] ++ vs.
